@@ -16,7 +16,7 @@ deriving Repr
 
 def mkItem (r : Rule) (route : String × RouteM) : Option Item :=
   match parsePat route.1 with
-  | .ok (pat, keys) => some ⟨pat, keys, ⟨r.cfg.id, r.src, r.cfg.esh, route.2⟩, r.cfg.bt⟩
+  | .ok (pat, keys) => some ⟨pat, keys, ⟨r.cfg.id, r.src, r.cfg.esh, route.2, r.cfg.ver⟩, r.cfg.bt⟩
   | .error _ => none
 
 def ruleItems (r : Rule) : List (Option Item) := r.cfg.routes.map (mkItem r)
@@ -48,7 +48,7 @@ theorem addRoutes_eq (t : Table RVal) (r : Rule) (routes : List (String × Route
     | ok pk =>
       obtain ⟨pat, keys⟩ := pk
       simp only [addItems, addItem]
-      cases ha : addPat sameSource t pat keys ⟨r.cfg.id, r.src, r.cfg.esh, m⟩ r.cfg.bt with
+      cases ha : addPat sameSource t pat keys ⟨r.cfg.id, r.src, r.cfg.esh, m, r.cfg.ver⟩ r.cfg.bt with
       | error e => simp
       | ok t' => simp only; exact ih t'
 
